@@ -3,7 +3,7 @@
      a_pid_fuzzy_set_bfuzz / A_PID_FUZZY_BFUZZ    the scratch layout (explicit arrays, every write and read bounds-checked)
      a_pid_fuzzy_out_    joint membership, 1/sum normalisation, mean-of-centres defuzzifier, gains = base + offset
      a_pid_fuzzy_run/pos/inc/zero
-   The model is the REPAIRED code (proposed_fixes/C13-3): when the joint membership sum is not positive the defuzzifier is
+   The model is the code as /repo has it after the fix: commit 75cb48d (proposed_fixes/C13-3): when the joint membership sum is not positive the defuzzifier is
    skipped (goto exit, gains = base gains).  `fuzzy_out_orig` keeps the unrepaired behaviour (inv = 1/sum unconditionally).
    No proofs here.
 
